@@ -246,9 +246,9 @@ func (s *vsys) checkWrites(x, y, _, _ int, vx, vy, wd, ht, px, py int, o vop) (s
 
 func viewports() {
 	ops := vops()
-	d := 3
+	d := 4
 	if hc.Thorough() {
-		d = 4
+		d = 6
 	}
 	for _, ps := range [][2]int{{5, 5}, {3, 2}, {0, 0}} {
 		ps := ps
@@ -699,9 +699,9 @@ func boxHistories() {
 		ops = append(ops, bop{kind: "Resize", a: e})
 	}
 	ops = append(ops, bop{kind: "Orient"})
-	d := 4
+	d := 5
 	if hc.Thorough() {
-		d = 5
+		d = 7
 	}
 	cfg := &seq.Config{Name: "boxlayout-edits", NOps: len(ops), Depth: d,
 		OpName: func(i int) string { return ops[i].String() },
@@ -1053,9 +1053,9 @@ func nestedHistories() {
 	}
 	ops = append(ops, nop{kind: "Insert", a: 0, pw: 4}, nop{kind: "Insert", a: 1, pw: 2}, nop{kind: "Remove", a: 0}, nop{kind: "Remove", a: 1},
 		nop{kind: "Resize", a: 5}, nop{kind: "Resize", a: 12}, nop{kind: "Draw"}, nop{kind: "Orient"})
-	d := 3
+	d := 5
 	if hc.Thorough() {
-		d = 5
+		d = 8
 	}
 	cfg := &seq.Config{Name: "boxlayout-nested-edits", NOps: len(ops), Depth: d,
 		OpName: func(i int) string { return ops[i].String() },
